@@ -163,6 +163,8 @@ def run_xh(job, tier):
             st = json.loads(ln[7:])
             if st["fn"] == m["fn"]:
                 res["confirmed_paths"] = st["confirmed_paths"]
+                if st.get("done_reached") is not None:   # leaves that reached the harness's final assertion
+                    res["confirmed_paths"] = min(st["confirmed_paths"], st["done_reached"])
                 res["iterations"] = st["iterations"]
             continue
         me = ERR_RE.match(ln)
@@ -385,8 +387,8 @@ def write_evidence(pid, tier, seed, mods, reg, main_res, results, samples, nviol
     z3q = sum((r.get("z3") or {}).get("queries", 0) for r in main_res)
     z3t = sum((r.get("z3") or {}).get("solver_time_s", 0) for r in main_res)
     for r in main_res:
-        for s in ((r.get("z3") or {}).get("samples") or [])[:3]:
-            if len(samples) < 20:
+        for s in ((r.get("z3") or {}).get("samples") or [])[:1]:
+            if len(samples) < 14:
                 samples.append({"harness": r["harness"], "part": r["part"], "query": s})
     per = {}
     for r in main_res:
@@ -422,7 +424,7 @@ def write_evidence(pid, tier, seed, mods, reg, main_res, results, samples, nviol
                      "inputs, including ones rejected by the precondition) + direct z3 queries; distinct_nontrivial = "
                      "leaves of the exhausted path tree that satisfied the precondition, reached the harness's final "
                      "assertion and were confirmed (distinct by construction: each leaf is a different decision "
-                     "sequence) + z3 queries answered unsat whose two sides are not syntactically identical"),
+                     "sequence) + direct z3 queries answered unsat that are non-trivial by the job's own rule (see harnesses[].bounds / module docstring)"),
             "samples": samples or [{"note": "no reaching input recorded"}],
             "exhaustive": bool(exhaustive),
             "states": distinct, "transitions": evaluations, "traces_validated_against_impl": len([r for r in results if r["twin"] and r["verdict"] == "counterexample"]),
